@@ -490,13 +490,10 @@ func splitHostURI(host, uri []byte) ([]byte, []byte, []byte) {
 		return bytestr.StrHTTP, host, uri
 	}
 	uri = path[len(bytestr.StrSlashSlash):]
-	n := bytes.IndexByte(uri, '/')
+	// the authority ends at the first slash, question mark or number sign
+	// (urls like foobar.com?a=/b or foobar.com#c have no slash after the host)
+	n := bytes.IndexAny(uri, "/?#")
 	if n < 0 {
-		// A hack for bogus urls like foobar.com?a=b without
-		// slash after host.
-		if n = bytes.IndexByte(uri, '?'); n >= 0 {
-			return scheme, uri[:n], uri[n:]
-		}
 		return scheme, uri, bytestr.StrSlash
 	}
 	return scheme, uri[:n], uri[n:]
